@@ -23,4 +23,27 @@ PROPS = {
                                      "not modelled: object.record / RegisterTrie (which words the REPL inserts)"],
         "assumptions": ["Go pointer sharing of the end marker is unobservable (Insert never descends into it; shown by the model's case split and exercised by the suite)"],
     },
+    "C17": {
+        "generated": True,
+        "proof_modules": ["GrolProofs.Props.C17"],
+        "theorems": [],
+        "suites": ["sanitize"],
+        "rule": "TODO",
+        "trusted_base": COMMON_TB,
+    },
+    "C18": {
+        "generated": True,
+        "proof_modules": ["GrolProofs.Props.C18"],
+        "theorems": [],
+        "suites": ["autosave"],
+        "rule": "TODO",
+        "trusted_base": COMMON_TB,
+    },
+    "C09": {
+        "proof_modules": ["GrolProofs.Props.C09"],
+        "theorems": [],
+        "suites": ["memory"],
+        "rule": "TODO",
+        "trusted_base": COMMON_TB,
+    },
 }
